@@ -1,5 +1,7 @@
 _TINY = ["ARDUINOJSON_SLOT_ID_SIZE=1", "ARDUINOJSON_POOL_CAPACITY=4", "ARDUINOJSON_INITIAL_POOL_COUNT=1"]
 
+_ODD = ["ARDUINOJSON_SLOT_ID_SIZE=1", "ARDUINOJSON_POOL_CAPACITY=3", "ARDUINOJSON_INITIAL_POOL_COUNT=2"]  # not a power of two, two inline pools
+
 def _hx_levels(depth, alphabet, defs, cap=0, extra=None):
     jobs = []
     tag = "%s%d_%s" % (alphabet, depth, "_".join(d.split("=")[-1] for d in defs) or "default")
@@ -23,9 +25,12 @@ PROPS["C04"] = {
     "rule": "transition = (reached state, enabled operation) executed on the real library; non-trivial = the transition changed the concrete state; "
             "states de-duplicated on model + pool/free-list/string-pool key",
     "assumptions": _HX_ASSUME,
-    "quick": _hx_levels(3, "reduced", _TINY) + _hx_levels(3, "reduced", _TINY, extra=["--api=handles"]),
+    "quick": _hx_levels(3, "reduced", _TINY) + _hx_levels(3, "reduced", _TINY, extra=["--api=handles"]) +
+             _hx_levels(2, "reduced", _TINY, extra=["--init=bulk"]) + _hx_levels(2, "reduced", _ODD),
     "thorough": _hx_levels(4, "reduced", _TINY, cap=60000) + _hx_levels(3, "full", _TINY) + _hx_levels(3, "reduced", []) +
-                _hx_levels(4, "reduced", _TINY, cap=60000, extra=["--api=handles"]),
+                _hx_levels(4, "reduced", _TINY, cap=60000, extra=["--api=handles"]) +
+                _hx_levels(3, "reduced", _TINY, cap=60000, extra=["--init=bulk"]) + _hx_levels(3, "reduced", _TINY, cap=60000, extra=["--init=bulk-freed"]) +
+                _hx_levels(3, "reduced", _ODD),
     "thorough_deadline": 2400,
 }
 _LEDGER_INPUTS = [{"src": "checks/ix_ledger.cpp", "mode": "ledger-inputs", "deps": ["checks/ix_ledger.hpp"]},
@@ -39,7 +44,8 @@ PROPS["C06"] = {
             "inputs on a ledger allocator (every string length around the builder and maximum-length boundaries, hostile MessagePack headers, all short MessagePack "
             "byte strings, generated documents): exactly-once release, no call during reads, peak bounded by one maximum-size string + linear in the bytes consumed",
     "assumptions": _HX_ASSUME,
-    "quick": _hx_levels(3, "reduced", _TINY) + _hx_levels(3, "reduced", _TINY, extra=["--api=handles"]) + _LEDGER_INPUTS,
+    "quick": _hx_levels(3, "reduced", _TINY) + _hx_levels(3, "reduced", _TINY, extra=["--api=handles"]) +
+             _hx_levels(2, "reduced", _TINY, extra=["--init=bulk-freed"]) + _LEDGER_INPUTS,
     "thorough": _hx_levels(4, "reduced", _TINY, cap=60000) + _hx_levels(3, "full", _TINY) + _hx_levels(3, "full", _TINY, extra=["--api=handles"]) + _LEDGER_INPUTS,
     "thorough_deadline": 2400,
 }
